@@ -29,7 +29,7 @@ def build(tier):
         msizes = [0, 1, 3, 4, 5, 7, 8, 9, 13, 17]
         counts = list(range(0, 10)) + [12, 16, 20]
         g4sizes = list(range(0, 41)) + [47, 48, 49, 63, 64, 65, 80]
-        g8sizes = [0, 1, 2, 8, 15, 16, 17]
+        g8sizes = [0, 1, 2, 8, 16, 17]
         offs = [0]
     else:
         sizes1 = list(range(0, 41))
